@@ -169,6 +169,7 @@ def _cargo(package, bins, features=None, env=None, timeout=7200):
 
 def _msg_class(msg):
     first = (msg or "").strip().splitlines()[0] if (msg or "").strip() else "no-message"
+    first = re.sub(r"(element|key|value)_type: [^},]*", "", first)
     first = re.sub(r"[0-9a-fA-F]{6,}", "#", first)
     first = re.sub(r"\d+", "#", first)
     return re.sub(r"[^A-Za-z#]+", "-", first)[:70].strip("-")
@@ -196,21 +197,31 @@ def run(tier):
     thorough = tier == "thorough"
     d = vlib.rundir("hydroprog")
     rnd = random.Random(vlib.seed())
+    t0 = time.time()
+
+    def lap(what):
+        vlib.log("hydroprog: %-28s at %.0fs" % (what, time.time() - t0))
 
     # ---- (1) TLC: enumerate / sample the well-typed programs --------------------------------
-    # pruning self-check: with and without the feasibility pruning the same programs come out
-    a = _enumerate("selfcheck_pruned", None, maxstmts=3, vocab=ALL_OPS, maxtc=1, maxfwd=1, place_e=["i"])
-    b = _enumerate("selfcheck_unpruned", res, maxstmts=3, vocab=ALL_OPS, maxtc=1, maxfwd=1, place_e=["i"], prune=False)
-    if sorted(gen.term_name(t) for t in a) != sorted(gen.term_name(t) for t in b) or len(a) < 50:
-        raise vlib.ToolError("generator pruning is not sound: %d programs with pruning, %d without" % (len(a), len(b)))
     pool_q = {}
-    cases = _enumerate("all4", res, maxstmts=4, vocab=ALL_OPS, maxtc=1, maxfwd=1, place_e=["i"])
-    n_exh = len(cases)
-    for t in cases:
-        pool_q[gen.term_name(t)] = t
-    cases = _simulate("sim_q", res, 700, 1000 + vlib.seed(), maxstmts=8, vocab=ALL_OPS, maxtc=1, maxfwd=1, place_e=["i", "kv"])
-    for t in cases:
-        pool_q[gen.term_name(t)] = t
+    with concurrent.futures.ThreadPoolExecutor(max_workers=4) as ex:
+        f_all4 = ex.submit(_enumerate, "all4", res, maxstmts=4, vocab=ALL_OPS, maxtc=1, maxfwd=1, place_e=["i"])
+        f_simq = ex.submit(_simulate, "sim_q", res, 700, 1000 + vlib.seed(), maxstmts=8, vocab=ALL_OPS, maxtc=1,
+                           maxfwd=1, place_e=["i", "kv"])
+        if thorough:
+            # pruning self-check: with and without the feasibility pruning the same programs come out
+            f_a = ex.submit(_enumerate, "selfcheck_pruned", None, maxstmts=3, vocab=ALL_OPS, maxtc=1, maxfwd=1, place_e=["i"])
+            f_b = ex.submit(_enumerate, "selfcheck_unpruned", res, maxstmts=3, vocab=ALL_OPS, maxtc=1, maxfwd=1,
+                            place_e=["i"], prune=False)
+            a, b = f_a.result(), f_b.result()
+            if sorted(gen.term_name(t) for t in a) != sorted(gen.term_name(t) for t in b) or len(a) < 50:
+                raise vlib.ToolError("generator pruning is not sound: %d programs with pruning, %d without" % (len(a), len(b)))
+        cases = f_all4.result()
+        n_exh = len(cases)
+        for t in cases:
+            pool_q[gen.term_name(t)] = t
+        for t in f_simq.result():
+            pool_q[gen.term_name(t)] = t
     if len(pool_q) < 1000:
         raise vlib.ToolError("vacuous generation: only %d programs" % len(pool_q))
     quick_names = _select(pool_q, 30, rnd)
@@ -235,6 +246,7 @@ def run(tier):
         rest = {k: v for k, v in pool_t.items() if k not in set(quick_names)}
         thorough_terms = [rest[k] for k in _select(rest, 260, rnd)]
 
+    lap("terms enumerated")
     # ---- (2) render --------------------------------------------------------------------------
     nq, nt, changed = gen.write_all(quick_terms, thorough_terms)
     terms = gen.read_terms()["terms"]
@@ -268,6 +280,7 @@ def run(tier):
     else:
         raise vlib.ToolError("hv_prog_embedded still does not build after excluding %s" % exclude)
     bindir = os.path.join(vlib.ROOT, WS, "target", "release")
+    lap("crates built")
 
     # ---- (4) run both builders -------------------------------------------------------------------
     prod_out = os.path.join(d, "prod.ndjson")
@@ -276,7 +289,7 @@ def run(tier):
         raise vlib.ToolError("progc prod failed: " + p.stderr[-2000:])
     prod_rows = [e for e in vlib.read_ndjson(prod_out) if e["e"] != "eof"]
     sim_names = [n for n, _, _ in progs][:(10 + 30 + 80) if thorough else 40]
-    nproc = 6 if thorough else 4
+    nproc = 6
 
     def sim_slice(i):
         out_i = os.path.join(d, "sim_%d.ndjson" % i)
@@ -290,6 +303,7 @@ def run(tier):
     with concurrent.futures.ThreadPoolExecutor(max_workers=nproc) as ex:
         sim_rows = [e for rows in ex.map(sim_slice, range(nproc)) for e in rows]
 
+    lap("both builders run")
     # ---- (5) TLC validates the log ---------------------------------------------------------------
     simset = set(sim_names)
     term_rows = [{"e": "term", "id": n, "hand": t is None, "expect": e if t is None else "", "term": t or [],
@@ -323,6 +337,7 @@ def run(tier):
                       "%s for program %s (%s)" % (rule, pr, " ; ".join(s["op"] for s in (by_prog.get(pr) or [])) or "hand-written"),
                       ev)
 
+    lap("log validated")
     # ---- evidence ----------------------------------------------------------------------------------
     gen_terms = [t for _, _, t in progs if t is not None]
     res.evaluations = len(progs)
@@ -352,6 +367,7 @@ def run(tier):
 
     # ---- (6) canaries ------------------------------------------------------------------------------
     _canaries(rows, d, res)
+    lap("canaries done")
     res.assumptions = [
         "well-typed = WellTyped of spec/HydroProg/HydroProg.tla (typing rules transcribed from the API signatures; rustc re-checks them on every rendered program)",
         "closures come from a closed vocabulary of total functions on i32 / (i32,i32)",
@@ -363,36 +379,28 @@ def run(tier):
 
 
 def _canaries(rows, d, res):
+    """One corrupted copy of the log with three independent corruptions; each must be flagged."""
     import copy
-    flagged = []
+    can = copy.deepcopy(rows)
     # (a) a failed simulator build of a well-typed program
-    can = copy.deepcopy(rows)
-    tgt = next(e for e in can if e["e"] == "sim" and e["verdict"] == "ok" and e["prog"].startswith("h_"))
-    tgt["verdict"], tgt["msg"] = "panic", "canary"
-    v, _ = _validate(can, d, "canary_sim", None)
-    if (tgt["prog"], "C41:simulator-builder-failed-on-well-typed-program") not in v:
-        raise vlib.ToolError("canary (failed simulator build) was NOT flagged: %s" % v[:3])
-    flagged.append("sim verdict")
+    ta = next(e for e in can if e["e"] == "sim" and e["verdict"] == "ok" and e["prog"].startswith("h_"))
+    ta["verdict"], ta["msg"] = "panic", "canary"
     # (b) an emitted graph whose subgraph order is reversed
-    can = copy.deepcopy(rows)
-    tgt = next((e for e in can if e["e"] == "prog" and e["prog"] == "h_tee_state_and_tick"), None)
-    if tgt is not None:
-        tgt["P"]["topo"] = list(reversed(tgt["P"]["topo"]))
-        v, _ = _validate(can, d, "canary_graph", None)
-        if not any(pr == tgt["prog"] and r.startswith("C41:graph:C18:order") for pr, r in v):
-            raise vlib.ToolError("canary (reversed subgraph order) was NOT flagged: %s" % v[:3])
-        flagged.append("subgraph order")
+    tb = next(e for e in can if e["e"] == "prog" and e["prog"] == "h_tee_state_and_tick")
+    tb["P"]["topo"] = list(reversed(tb["P"]["topo"]))
     # (c) a term whose recorded type is wrong must be rejected by WellTyped
-    can = copy.deepcopy(rows)
-    tgt = next((e for e in can if e["e"] == "term" and not e["hand"] and len(e["term"]) >= 4), None)
-    if tgt is not None:
-        s = tgt["term"][2]
-        s["ty"] = dict(s["ty"], e="kv" if s["ty"]["e"] == "i" else "i")
-        v, _ = _validate(can, d, "canary_term", None)
-        if not any(pr == tgt["id"] and r.startswith("TOOL:generated-term-is-not-well-typed") for pr, r in v):
-            raise vlib.ToolError("canary (ill-typed term) was NOT rejected by WellTyped: %s" % v[:3])
-        flagged.append("ill-typed term")
-    res.extra["canary"] = "corrupted logs flagged: " + ", ".join(flagged)
+    tc = next(e for e in can if e["e"] == "term" and not e["hand"] and len(e["term"]) >= 4)
+    s3 = tc["term"][2]
+    s3["ty"] = dict(s3["ty"], e="kv" if s3["ty"]["e"] == "i" else "i")
+    v, _ = _validate(can, d, "canary", None)
+    if (ta["prog"], "C41:simulator-builder-failed-on-well-typed-program") not in v:
+        raise vlib.ToolError("canary (failed simulator build) was NOT flagged: %s" % v[:3])
+    if not any(pr == tb["prog"] and r.startswith("C41:graph:C18:order") for pr, r in v):
+        raise vlib.ToolError("canary (reversed subgraph order) was NOT flagged: %s" % v[:3])
+    if not any(pr == tc["id"] and r.startswith("TOOL:generated-term-is-not-well-typed") for pr, r in v):
+        raise vlib.ToolError("canary (ill-typed term) was NOT rejected by WellTyped: %s" % v[:3])
+    res.extra["canary"] = ("corrupted log flagged: failed simulator build of %s; reversed subgraph order of %s; "
+                           "ill-typed statement 3 of %s" % (ta["prog"], tb["prog"], tc["id"]))
 
 
 def replay(pid, path):
